@@ -1,5 +1,5 @@
 (* C14: clean() reaches the unique minimal representation without changing the curve. *)
-From Coq Require Import QArith List Bool Arith.
+From Coq Require Import QArith ZArith List Bool Arith.
 From NurbsV Require Import Base.Res Base.QList Spec.KnotSpec Spec.BSpline Gen.Consts Model.KV Model.CurveM
   Model.Ops Model.CurveOps Model.CurveLS Check.Common Check.Oracle.
 Import ListNotations.
@@ -16,11 +16,33 @@ Definition ocurve_eqb (a b : ocurve) : bool :=
 Inductive cop := OClean | OKnotClean (nodes : option (list Q)) | ODegreeClean.
 (* (minimal curve the history started from, curve before the call (same function, refined), operation,
     was the degree raised in the history, outcome, curve after, curve after calling the operation again) *)
-Definition case := (ocurve * ocurve * cop * bool * res unit * ocurve * ocurve)%type.
+(* two more fields: `pert` - one refined control point was moved (the curve before the call is then NOT the start curve's function,
+   and some knots are only almost removable); `tol` - the explicit tolerance argument (None = the library's default 1e-9).
+   For perturbed curves the oracle is the tolerance clause alone: the exact integral of the squared deviation stays below
+   2 * tol * max(1, L) * (1 + k)^2, k = number of knots / degrees taken away (each accepted step may use the tolerance once). *)
+Definition case := (ocurve * ocurve * cop * bool * bool * option Q * res unit * ocurve * ocurve)%type.
+Definition default_tol : Q := 1 # 1000000000.
+Definition qmaxq (a b : Q) : Q := if Qltb a b then b else a.
+Definition within_tolerance (before after : ocurve) (tol : Q) : bool :=
+  let len := umax_of (o_U before) (o_p before) - umin_of (o_U before) (o_p before) in
+  let k := inject_Z (Z.of_nat (1 + (length (o_U before) - length (o_U after)))) in
+  match sqdev before after with
+  | Ok dv => Qleb dv (2 * tol * qmaxq 1 len * k * k)
+  | Err _ => false
+  end.
 
 Definition check_case (cs : case) : verdict :=
-  let '(start, before, op, raised, r, after, after2) := cs in
+  let '(start, before, op, raised, pert, tolarg, r, after, after2) := cs in
+  let tl := match tolarg with Some t => t | None => default_tol end in
   let prop :=
+    if pert then
+      o_wf before &&
+      match r with
+      | Err _ => false
+      | Ok _ => o_wf after && within_tolerance before after tl
+                && (match op with OKnotClean _ => Nat.eqb (o_p after) (o_p before) | _ => true end)
+      end
+    else
     o_wf start && o_wf before && fun_eq start before &&
     match r with
     | Err _ => false
@@ -44,9 +66,9 @@ Definition check_case (cs : case) : verdict :=
   | Err _ => mkv false prop
   | Ok cv =>
       let m := match op with
-               | OClean => c_clean cv tol_clean
-               | OKnotClean ns => c_knot_clean cv ns tol_kclean
-               | ODegreeClean => c_degree_clean cv tol_dclean
+               | OClean => c_clean cv (match tolarg with Some t => t | None => tol_clean end)
+               | OKnotClean ns => c_knot_clean cv ns (match tolarg with Some t => t | None => tol_kclean end)
+               | ODegreeClean => c_degree_clean cv (match tolarg with Some t => t | None => tol_dclean end)
                end in
       mkv (match m, r with
            | Ok cv', Ok _ => ocurve_eqb (of_curve cv') after
